@@ -707,7 +707,17 @@ def m_cases(ctx: vlib.Ctx, n: int):
 
 
 def coq_part(ctx: vlib.Ctx):
-    ctx.theorems("props/C20_schema.vo", THEOREMS + RT_THEOREMS, kernels=["K9"])
+    br = ctx.theorems("props/C20_schema.vo", THEOREMS + RT_THEOREMS + ["C20_override_noop", "C20_override_covered"], kernels=["K9"])
+    if br.ok and not ctx.quick():
+        rc, out, _ = vlib.run(["timeout", "900", "coqchk", "-silent", "-o"] + vlib.COQ_FLAGS[:9] + ["VerifProps.C20_schema"],
+                              cwd=vlib.COQ, timeout=930)
+        tail = out[out.find("CONTEXT SUMMARY"):] if "CONTEXT SUMMARY" in out else out[-800:]
+        axioms = tail[tail.find("* Axioms:"):].split("*")[1].strip() if "* Axioms:" in tail else "?"
+        ok = rc == 0 and axioms.replace("Axioms:", "").strip() == "<none>"
+        ctx.obligation("coqchk -o VerifProps.C20_schema (no axioms)", ok, tail[-600:])
+        ctx.trusted.append("coqchk -o on VerifProps.C20_schema: " + " ".join(axioms.split()))
+        if not ok:
+            ctx.not_shown("coqchk VerifProps.C20_schema", out[-1200:])
     ctx.trusted.append("tools/kernels/k9_builder_ctx.py (K9 translator plugin: slices of build_json_schema / JSONSchemaBuilder.__init__ / "
                        "on_dataclass, structure-checked) and coq/theories/PyK_schema.v (str.rstrip('/'), f-string concatenation)")
     ctx.trusted.append("SchemaGen model grammar (scalars, List/Set/Dict[str,.]/Tuple/Union/Optional/dataclass with aliases and rendered "
